@@ -231,6 +231,73 @@ pub fn check_aux(c: &AuxCase) -> Verdict {
     pass(format!("{}|{}|{}|root-h{}", class, match c.op { AuxOp::Keygen => "keygen", AuxOp::Sign(_) => "sign", AuxOp::SignViaKey(_) => "sign-via-key" }, len_class, c.levels[0].1), !trivial)
 }
 
+#[derive(Clone, Debug, PartialEq, Eq, Serialize, Deserialize)]
+pub enum HistStep {
+    Keygen,
+    Sign(u64),
+}
+
+#[derive(Clone, Debug, Serialize, Deserialize)]
+pub struct AuxHistCase {
+    pub hash: HashId,
+    pub levels: Vec<Level>,
+    /// initial buffer: 0 zeroed, 1 leftovers behind a zero first byte, 2 filled by key A's key generation
+    pub start: u8,
+    pub size: u32,
+    /// (use key B instead of key A, operation)
+    pub steps: Vec<(bool, HistStep)>,
+}
+
+/// One caller-owned buffer is handed to a sequence of keygen / sign calls (of one or two keys);
+/// every result must equal the result without aux data.
+pub fn check_aux_history(c: &AuxHistCase) -> Verdict {
+    let n = c.hash.n();
+    let seeds = [gen::expand(0xa0, n), gen::expand(0xb1, n)];
+    let mut data: Vec<u8> = match c.start % 3 {
+        0 => vec![0u8; c.size as usize],
+        1 => {
+            let mut v = gen::expand(c.size as u64, c.size as usize);
+            v.iter_mut().for_each(|b| if *b == 0 { *b = 0x42 });
+            v[0] = 0;
+            v
+        }
+        _ => {
+            let mut a = AuxBuf::new(vec![0u8; c.size as usize]);
+            let _ = libapi::keygen(c.hash, &c.levels, &seeds[0], Some(&mut a));
+            a.used().to_vec()
+        }
+    };
+    for (k, (other, step)) in c.steps.iter().enumerate() {
+        let seed = &seeds[*other as usize];
+        let mut aux = AuxBuf::new(data.clone());
+        match step {
+            HistStep::Keygen => {
+                let base = lib_keygen_cached(c.hash, &c.levels, seed);
+                let got = libapi::keygen(c.hash, &c.levels, seed, Some(&mut aux));
+                if got != base {
+                    return fail("keygen-differs history", format!("step {}: key generation with the shared buffer gives {} instead of the result without aux data", k, got.kind()));
+                }
+            }
+            HistStep::Sign(counter) => {
+                let msg = gen::expand(*counter ^ 0x415, 19);
+                let blob = hss::private_key_blob(&c.levels, *counter, seed);
+                let (bo, bcalls) = libapi::sign(c.hash, &msg, &blob, Cb::Accept, None);
+                let (o, calls) = libapi::sign(c.hash, &msg, &blob, Cb::Accept, Some(&mut aux));
+                match (&bo, &o) {
+                    (Out::Ok(b), Out::Ok(s)) if b == s && bcalls == calls => {}
+                    _ => return fail("sign-differs history", format!("step {} (key {}, counter {}): signing with the shared buffer gives {} / a different signature than without aux data (baseline {})", k, if *other { "B" } else { "A" }, counter, o.kind(), bo.kind())),
+                }
+            }
+        }
+        // the caller keeps using the (shrunk) buffer as the call left it
+        data = aux.used().to_vec();
+        if data.is_empty() {
+            data = vec![0u8; 1];
+        }
+    }
+    pass(format!("history|{}|start{}|L{}", c.hash.name(), c.start % 3, c.levels.len()), true)
+}
+
 #[derive(Clone, Debug, Serialize, Deserialize)]
 pub struct ChainCase {
     pub hash: HashId,
@@ -365,6 +432,22 @@ pub fn run(ctx: &Ctx) {
     for cl in ["bit-flip|sign|len>=hdr|root-h5", "garbage-first-zero|sign|len>=hdr|root-h5", "valid|keygen|len>=hdr|root-h5", "planted-no-mac|keygen|len>=hdr|root-h5", "truncated|sign|len>=hdr|root-h5"] {
         ctx.require_class("aux_classes", cl);
     }
+
+    // histories over ONE buffer: what an earlier call left in it must never change a later result
+    let mut hist: Vec<AuxHistCase> = Vec::new();
+    for h in ALL_HASHES {
+        for (si, shape) in [vec![(4u32, 5u32), (4u32, 5u32)], vec![(8, 2), (4, 5)], vec![(4, 5)], vec![(8, 2), (8, 2), (4, 2)]].iter().enumerate() {
+            let total: u64 = 1u64 << shape.iter().map(|l| l.1).sum::<u32>();
+            let below: u64 = total >> shape[0].1;
+            for start in 0..3u8 {
+                // same key: first use by a signing call, later signatures under other top-tree leaves
+                hist.push(AuxHistCase { hash: h, levels: shape.clone(), start, size: 1000 + si as u32 * 300, steps: vec![(false, HistStep::Sign(0)), (false, HistStep::Sign(1)), (false, HistStep::Sign((4 * below).min(total - 1))), (false, HistStep::Sign((17 * below + 1).min(total - 1))), (false, HistStep::Keygen), (false, HistStep::Sign(total - 1))] });
+                // two keys (different seeds) taking turns on one buffer
+                hist.push(AuxHistCase { hash: h, levels: shape.clone(), start, size: 2000, steps: vec![(false, HistStep::Sign(0)), (false, HistStep::Sign(1)), (true, HistStep::Sign(0)), (true, HistStep::Sign(below.min(total - 1))), (false, HistStep::Sign(2)), (true, HistStep::Keygen), (false, HistStep::Sign(3)), (false, HistStep::Keygen), (true, HistStep::Sign(1))] });
+            }
+        }
+    }
+    ctx.enumerate("buffer_histories", hist.len() as u64, false, |i| hist[i as usize].clone(), check_aux_history);
 
     // one SigningKey instance, several signatures: the buffer is authenticated again on every call
     let mut chain: Vec<ChainCase> = Vec::new();
